@@ -399,6 +399,9 @@ pub struct Run {
     pub replay_only: bool,
     /// shrink budget for proptest parts (expensive cases such as socket sessions lower it)
     pub max_shrink_iters: u32,
+    /// parts whose failure is the harness' own (it could not build or observe a case, or the verdict did not reproduce):
+    /// reported as INCONCLUSIVE (exit 2), never as a violation
+    pub inconclusive: Vec<String>,
 }
 
 impl Run {
@@ -422,6 +425,7 @@ impl Run {
             started: Instant::now(),
             replay_only: false,
             max_shrink_iters: 4096,
+            inconclusive: vec![],
         }
     }
 
@@ -477,6 +481,19 @@ impl Run {
         if !local.excluded_known.is_empty() {
             pj["excluded_known_findings"] = json!(local.excluded_known);
         }
+        let failure = match failure {
+            // the harness could not build / observe the case (a renamed field, a changed Debug rendering, ...) or the
+            // verdict did not reproduce on the shrunk case: that says nothing about the property
+            Some((f, case)) if f.sig.starts_with("harness") || f.sig == "flaky" => {
+                let case = f.min_case.clone().unwrap_or(case);
+                let path = write_replay(self.id, name, &case, &f);
+                pj["inconclusive"] = json!({"signature": f.sig, "message": f.msg, "replay": path});
+                println!("  [{}] part {name}: INCONCLUSIVE {}: {}", self.id, f.sig, f.msg);
+                self.inconclusive.push(format!("{name}: {}", f.sig));
+                None
+            },
+            other => other,
+        };
         if let Some((f, case)) = failure {
             let case = f.min_case.clone().unwrap_or(case);
             let path = write_replay(self.id, name, &case, &f);
@@ -912,6 +929,10 @@ impl Run {
             wall
         );
         if self.violations.is_empty() {
+            if !self.inconclusive.is_empty() {
+                println!("INCONCLUSIVE property={}: the harness could not judge {:?}", self.id, self.inconclusive);
+                return 2;
+            }
             0
         } else {
             for v in &self.violations {
